@@ -4,6 +4,18 @@ import json, os
 PROPS = [json.loads(l)['id'] for l in open('/verif/properties.jsonl')]
 
 CLAIMED = {
+ 'C05': dict(
+   category='proof',
+   text=('PARTIAL proof + exact correspondence. Proved in Coq for every symmetry, rank, grouping and length: the block sign of swap_gate is '
+         'involutive, trivial for bosonic statistics, symmetric in the swapped groups, depends only on the declared fermionic components and is '
+         'multiplicative over the swapped pairs; sign_canonical_order equals the inversion parity of the site sequence weighted by charge products '
+         '(operators on one site never swapped; ordered sites give +1). The models are executed (extracted) against the real per-block negation pattern and '
+         'the real sign_canonical_order. NOT proved: order-independence of ncon with swaps on contracted legs (jump-move scheduler) and fkron CAR for all N: '
+         'covered by running ALL contraction orders of generated fermionic networks (odd and even tensors, product symmetries with partial fermionic flags) and '
+         'by comparing fkron with explicit Jordan-Wigner matrices for all site permutations and application orders, exactly.'),
+   design_ref='DESIGN.md section 6 C05',
+   note=('Trusted: Coq kernel, no axioms; hand-written sign models tied by exact correspondence; the ncon scheduler (_meta_ncon/_resolve_bad_swaps) is not modelled.'),
+   technique='Coq proof (sign laws, inversion parity by induction) + exact model correspondence + exhaustive contraction-order and Jordan-Wigner differential checks'),
  'C14': dict(
    category='proof',
    text=('PARTIAL proof + differential correspondence. Proved in Coq: the lazy-transposition mechanism is faithful and compositional (a pending '
